@@ -355,6 +355,7 @@ def run_retry_scenario(scn: dict, chooser=None):
 
             async def main(loop):
                 env.loop = loop
+                loop.after_step = env.after_step
                 if not conc:
                     for cid, script in enumerate(scn["calls"], scn.get("cid_base", 0)):
                         for op in script.get("before") or []:
